@@ -409,15 +409,23 @@ def shard(ctx, tier, i, n):
     from hypothesis import given, settings, Phase, HealthCheck
     from nv.core import derive_seed
 
+    from nv.core import case_hash
+    done = [0]
+
     @hypothesis.seed(derive_seed(ctx.seed, ID, i))
-    @settings(max_examples=p['sets'], database=None, deadline=None,
+    @settings(max_examples=p['sets'] * n, database=None, deadline=None,
               phases=[Phase.generate],
               suppress_health_check=list(HealthCheck))
     @given(setups())
     def t(s):
+        # a setup is executed by the shard owning its hash (all Hypothesis
+        # runs start with the same simplest examples whatever the seed)
+        if int(case_hash(s), 16) % n != i % n or done[0] >= p['sets']:
+            return
         if ctx.out_of_time():
             complete[0] = False
             return
+        done[0] += 1
         run_case(s)
         ctx.extra['point_sets'] = ctx.extra.get('point_sets', 0) + 1
 
